@@ -27,6 +27,7 @@ const (
 	EvPoint = rt.EvPoint
 	EvCmp   = rt.EvCmp
 	EvCT    = rt.EvCT
+	EvSC    = rt.EvSC
 )
 
 // ResetPools empties every pool of the instrumented library.
